@@ -514,3 +514,604 @@ class Tb:
         if not hasattr(self, "_marr"):
             self._marr = {mem: list(arr) for mem, arr in self.nl.ev.replaced_memories.items()}
         return self._marr
+
+
+# ------------------------------------------------------------------------------------------------------------
+# ground truth from the elaborated objects (what the hardware *is*), keyed by object identity
+
+class RegInfo:
+    pass
+
+
+def soc_structure(b):
+    """Per CSR region (in the exporters' order): page, register objects, their simple CSRs (address order)."""
+    soc = b.soc
+    page_of = {}
+    for name, csrs, mapaddr, rmap in soc.csr_bankarray.banks:
+        page_of[name] = mapaddr
+    mem_of = {}
+    for name, memory, mapaddr, mmap in soc.csr_bankarray.srams:
+        page_of[name + "_" + memory.name_override] = mapaddr
+        mem_of[name + "_" + memory.name_override] = (memory, mmap)
+    regions = []
+    for rname, region in soc.csr_regions.items():
+        R = Built()
+        R.name, R.origin, R.page, R.busword = rname, region.origin, page_of[rname], region.busword
+        R.regs = []
+        R.mem = mem_of.get(rname)
+        if R.mem is None:
+            for c in region.obj:
+                ri = RegInfo()
+                ri.obj, ri.name, ri.size = c, c.name, c.size
+                ri.full = rname + "_" + c.name
+                ri.simple = list(c.simple_csrs) if isinstance(c, _CompoundCSR) else [c]
+                ri.kind = "storage" if isinstance(c, CSRStorage) else "status" if isinstance(c, CSRStatus) else "csr"
+                ri.atomic = bool(getattr(c, "atomic_write", False))
+                R.regs.append(ri)
+        regions.append(R)
+    return regions
+
+
+def bank_words(regions):
+    """The bank list as sent to the Lean driver: `<page> <size> ...` per region in export order."""
+    return " ; ".join(" ".join([str(R.page)] + [str(r.size) for r in R.regs]) for R in regions)
+
+
+R_CSR8 = "C14-csr8-stride"
+R_LITTLE = "C14-little-ordering-accessors"
+R_AXIL_RD = "C14-axil-wide-bus-read-side-effects"
+R_AXI_NARROW = "C14-axi-wide-bus-narrow-access-next-word"
+KNOWN_REGIONS = (R_CSR8, R_LITTLE, R_AXIL_RD, R_AXI_NARROW)
+
+
+def config_regions(cfg, regions=None):
+    """Finding regions a configuration lies in (predicates over the configuration only)."""
+    out = set()
+    if cfg["csr_dw"] == 8:
+        out.add(R_CSR8)
+    if cfg.get("ordering", "big") == "little":
+        out.add(R_LITTLE)
+    if cfg["bus"] in ("axi-lite", "axi") and cfg["bus_dw"] > 32:
+        out.add(R_AXIL_RD)
+    if cfg["bus"] == "axi" and cfg["bus_dw"] > 32:
+        out.add(R_AXI_NARROW)
+    return out
+
+
+def nwords(busword, size):
+    return (size + busword - 1) // busword
+
+
+def check_soc(cfg, seed=0, max_regs=None):
+    """Build, export, access every exported address.  Returns a picklable record:
+       verdict, lean: [(call line, real answer)], alarms: [(finding region | None, text)], stats."""
+    rng = random.Random(seed)
+    rec = {"cfg": cfg, "seed": seed, "lean": [], "alarms": [], "stats": {}, "verdict": None, "samples": []}
+    st = rec["stats"]
+
+    def count(k, n=1):
+        st[k] = st.get(k, 0) + n
+
+    b, verdict = safe_build(cfg)
+    rec["verdict"] = verdict
+    bw = cfg["csr_dw"]
+    paging = cfg["paging"]
+    aw = cfg.get("csr_aw", 14)
+    if b is None:
+        return rec
+    soc = b.soc
+    ex = run_exports(b)
+    regions = soc_structure(b)
+    inreg = config_regions(cfg, regions)
+    rec["regions"] = sorted(inreg)
+    csr_base = soc.bus.regions["csr"].origin
+    big = cfg.get("ordering", "big") == "big"
+    banks = bank_words(regions)
+    rec["lean"].append(("accepts %d %d %d %d ; %s" % (soc.csr.alignment, aw, paging, bw, banks), "ok"))
+
+    def alarm(text, *tags):
+        """An oracle alarm; attributed to the first finding region in `tags` the configuration lies in."""
+        tag = next((t for t in tags if t in inreg), None)
+        rec["alarms"].append((tag, text))
+
+    # ---- static agreement of the exports (oracle: the elaborated objects) and with the Lean exportAddrs ------
+    if ex.svd_error:
+        alarm("get_csr_svd crashed: " + ex.svd_error)
+    real_j, real_h, real_s = [], [], []
+    for R in regions:
+        if ex.json["csr_bases"].get(R.name) != R.origin or ex.csv["csr_base"].get(R.name) != R.origin:
+            alarm("csr_base of %s: json %r csv %r, region origin %d" % (R.name, ex.json["csr_bases"].get(R.name),
+                                                                      ex.csv["csr_base"].get(R.name), R.origin))
+        if R.origin != csr_base + paging * R.page:
+            alarm("region %s origin %d != csr base %d + paging*%d" % (R.name, R.origin, csr_base, R.page))
+        hb = ex.header.value("CSR_%s_BASE" % R.name.upper())
+        if hb != R.origin:
+            alarm("csr.h CSR_%s_BASE = 0x%x, region origin 0x%x" % (R.name.upper(), hb, R.origin))
+        ej, eh = [], []
+        for r in R.regs:
+            j = ex.json["csr_registers"][r.full]
+            c = ex.csv["csr_register"][r.full]
+            if (j["addr"], j["size"], j["type"]) != c:
+                alarm("json/csv differ for %s: %r vs %r" % (r.full, j, c))
+            if j["size"] != len(r.simple):
+                alarm("%s: exported size %d, hardware has %d simple CSRs" % (r.full, j["size"], len(r.simple)))
+            ha = ex.header.value("CSR_%s_ADDR" % r.full.upper())
+            hs = ex.header.value("CSR_%s_SIZE" % r.full.upper())
+            if (ha, hs) != (j["addr"], j["size"]):
+                alarm("csr.h %s ADDR/SIZE (0x%x,%d) != json (0x%x,%d)" % (r.full, ha, hs, j["addr"], j["size"]))
+            if r.full in ex.header.readers:
+                wa = ex.header.word_addrs(r.full)
+                if wa != [ha + 4 * k for k in range(hs)]:
+                    alarm("csr.h reader of %s touches %r" % (r.full, wa))
+            if (r.full in ex.header.readers) != (len(r.simple) * bw <= 64):
+                alarm("csr.h accessor presence of %s (%d words of %d bit)" % (r.full, len(r.simple), bw))
+            if (r.full in ex.header.writers) != (len(r.simple) * bw <= 64 and not getattr(r.obj, "read_only", False)):
+                alarm("csr.h writer presence of %s" % r.full)
+            for f in (r.obj.fields.fields if hasattr(r.obj, "fields") else []):
+                pre = "CSR_%s_%s_%s_" % (R.name.upper(), r.name.upper(), f.name.upper())
+                if ex.header.value(pre + "OFFSET") != f.offset or ex.header.value(pre + "SIZE") != f.size:
+                    alarm("csr.h field macros of %s.%s" % (r.full, f.name))
+                count("fields")
+            ej.append("%d:%d" % (j["addr"], j["size"]))
+            eh.append("%d:%d" % (ha, hs))
+        real_j.append(" ".join(ej))
+        real_h.append(" ".join(eh))
+        if ex.svd is not None:
+            sv = ex.svd.get(R.name.upper())
+            if sv is None:
+                alarm("SVD lacks peripheral " + R.name)
+                real_s.append("?")
+            elif R.mem is not None:
+                if sv["base"] != R.origin:
+                    alarm("SVD base of memory %s" % R.name)
+                real_s.append("")
+            else:
+                if sv["base"] != R.origin:
+                    alarm("SVD base of %s: 0x%x vs 0x%x" % (R.name, sv["base"], R.origin))
+                flat = [ex.json["csr_registers"][r.full]["addr"] + 4 * k for r in R.regs for k in range(len(r.simple))]
+                if [a for _, a in sv["regs"]] != flat:
+                    alarm("SVD register addresses of %s differ from the JSON word addresses" % R.name)
+                real_s.append(" ".join(str(a) for _, a in sv["regs"]))
+    if ex.svd is not None:
+        real = "J %s # H %s # S %s" % (" | ".join(real_j), " | ".join(real_h), " | ".join(real_s))
+        rec["lean"].append(("export %d %d %d %d %d ; %s" % (csr_base, paging, soc.csr.alignment, bw,
+                                                           soc.mem_regions["csr"].origin, banks), real))
+    count("regions", len(regions))
+    count("registers", sum(len(R.regs) for R in regions))
+    count("simple_csrs", sum(len(r.simple) for R in regions for r in R.regs))
+    # memory regions / constants
+    for name, region in soc.bus.regions.items():
+        j = ex.json["memories"].get(name)
+        m = ex.mem_header.get(name.upper())
+        c = ex.csv["memory_region"].get(name)
+        if j is None or m is None or c is None or (j["base"], j["size"]) != (region.origin, region.size) \
+                or m != (region.origin, region.size) or c[:2] != (region.origin, region.size):
+            alarm("memory region %s: json %r mem.h %r csv %r, bus region (0x%x, 0x%x)" % (name, j, m, c, region.origin, region.size))
+        if ("%s : ORIGIN = 0x%08x, LENGTH = 0x%08x" % (name, region.origin, region.size)) not in ex.linker:
+            alarm("linker region %s" % name)
+        if ex.svd_mems is not None and ex.svd_mems.get(name.upper()) != (region.origin, region.size):
+            alarm("SVD memory region %s" % name)
+        count("mem_regions")
+    for k, v in soc.constants.items():
+        jv = ex.json["constants"].get(k.lower())
+        want = v.lower() if isinstance(v, str) else v
+        if jv != want:
+            alarm("constant %s: json %r, soc %r" % (k, jv, v))
+        line = "#define %s%s" % (k, "" if v is None else (' "%s"' % v if isinstance(v, str) else " %s" % v))
+        if line + "\n" not in ex.soc_header:
+            alarm("constant %s missing/wrong in soc.h" % k)
+        count("constants")
+    if ex.json["constants"].get("config_csr_data_width") != bw or ex.json["constants"].get("config_csr_alignment") != 32:
+        alarm("CONFIG_CSR_DATA_WIDTH / ALIGNMENT constants")
+
+    # ---- end-to-end: access every exported address ----------------------------------------------------------
+    tb = Tb(b)
+    wide_axi = cfg["bus"] in ("axi-lite", "axi") and cfg["bus_dw"] > 32
+    model_hits = not wide_axi       # the AXI-Lite 64->32 converter's double reads are not part of the model
+    model_regs = model_hits and bw == 32
+    simple_key = {}     # id(simple CSR) -> "bank:index"
+    for name, i, c in tb.simple:
+        simple_key[id(c)] = "%s:%d" % (name, i)
+    bank_index = {R.name: k for k, R in enumerate(regions)}
+    word_of = {}        # id(simple CSR) -> (RegInfo, word index)
+    for R in regions:
+        for r in R.regs:
+            n = len(r.simple)
+            for j, sc in enumerate(r.simple):
+                word_of[id(sc)] = (r, (n - 1 - j) if big else j)
+    backshadow = {}     # id(reg obj) -> backstore value (tracked from the stores that reached the register)
+    storages = [(r, r.obj.storage) for R in regions for r in R.regs if r.kind == "storage"]
+
+    def hits_model_form(hits):
+        """observed strobes -> `b:i` list in the Lean numbering (bank index in export order)."""
+        out = []
+        for k in sorted(hits["w"] | hits["r"]):
+            name, i, _ = tb.simple[k]
+            out.append((bank_index[name], i))
+        return " ".join("%d:%d" % e for e in out) or "-"
+
+    def do_access(addr, we, v=0):
+        snap = tb.nl.snapshot()
+        try:
+            val, hits = tb.access(addr, we, v)
+        except C14Error:
+            tb.nl.restore(snap)
+            tb.hits = None
+            count("hangs")
+            return None, None
+        count("accesses")
+        if we:
+            for k in hits["w"]:
+                sc = tb.simple[k][2]
+                r, i = word_of.get(id(sc), (None, None))
+                if r is not None and r.atomic and len(r.simple) > 1 and i > 0:
+                    nb = min(r.size - i * bw, bw)
+                    cur = backshadow.get(id(r.obj), 0)
+                    lo = (i - 1) * bw
+                    cur = (cur & ~(((1 << nb) - 1) << lo)) | ((v & ((1 << nb) - 1)) << lo)
+                    backshadow[id(r.obj)] = cur
+        if model_hits and csr_base <= addr < csr_base + (1 << (aw + 2)):
+            rec["lean"].append(("decode %d %d %d %d ; %s" % (bw, aw, paging, addr - csr_base, banks),
+                                hits_model_form(hits)))
+        return val, hits
+
+    def expect_hits(hits, kind, sc, what):
+        if hits is None:
+            alarm("%s: the bus hangs" % what)
+            return False
+        want = {"%s:%s" % (kind, simple_key[id(sc)])}
+        got = set(tb.name_hits(hits))
+        if got != want:
+            tags = [R_CSR8, R_AXI_NARROW]
+            if kind == "r" and got > want and all(g.startswith("r:") for g in got):
+                tags.append(R_AXIL_RD)
+            alarm("%s: strobed %s, expected exactly %s" % (what, sorted(got), sorted(want)), *tags)
+        return True
+
+    reglist = [(R, r) for R in regions for r in R.regs]
+    if max_regs is not None and len(reglist) > max_regs:
+        reglist = rng.sample(reglist, max_regs)
+    for R, r in reglist:
+        mask = (1 << r.size) - 1
+        nw = len(r.simple)
+        has_acc = r.full in ex.header.readers
+        jaddr = ex.json["csr_registers"][r.full]["addr"]
+        waddrs = [jaddr + 4 * k for k in range(nw)]
+        ltag = (R_LITTLE,) if nw > 1 else ()
+        # ---- write --------------------------------------------------------------------------------------
+        if r.kind == "storage":
+            before = {id(o.obj): tb.get(s) for o, s in storages}
+            old = before[id(r.obj)]
+            back = backshadow.get(id(r.obj), 0)
+            stores = []
+            if r.full in ex.header.writers:
+                v = rng.getrandbits(64) if rng.random() < 0.7 else rng.getrandbits(r.size)
+                ex.header.write(r.full, v, lambda a, x: stores.append((a, x)))
+                ctbits = CHeader.CT[ex.header.writers[r.full][0]]
+                rec["lean"].append(("accwrite %d %d %d" % (bw, nw, v), " ".join(str(x) for _, x in stores)))
+                want_val = v & ((1 << ctbits) - 1) & mask
+                if [a for a, _ in stores] != waddrs:
+                    alarm("csr.h writer of %s stores to %r, json words at %r" % (r.full, [a for a, _ in stores], waddrs))
+            else:
+                # no accessor above 8 bytes: software composes the words itself from the JSON/CSV address and
+                # size, most significant word first (the order of the generated accessors and of the SVD names)
+                v = rng.getrandbits(r.size)
+                stores = [(waddrs[k], (v >> (bw * (nw - 1 - k))) & ((1 << bw) - 1)) for k in range(nw)]
+                want_val = v
+                count("regs_without_accessor")
+            ok_access = True
+            for k, (a, x) in enumerate(stores):
+                val, hits = do_access(a, 1, x)
+                ok_access &= expect_hits(hits, "w", r.simple[min(k, nw - 1)], "store to %s word %d @0x%x" % (r.full, k, a))
+            after = {id(o.obj): tb.get(s) for o, s in storages}
+            got = after[id(r.obj)]
+            if got != want_val:
+                alarm("%s_write(0x%x): storage holds 0x%x, expected 0x%x" % (r.full, v, got, want_val),
+                      R_CSR8, R_AXI_NARROW, *ltag)
+            for o, s in storages:
+                if o is not r and after[id(o.obj)] != before[id(o.obj)]:
+                    alarm("%s_write changed %s (0x%x -> 0x%x)" % (r.full, o.full, before[id(o.obj)], after[id(o.obj)]),
+                          R_CSR8, R_AXI_NARROW)
+            if ok_access and model_regs:
+                rec["lean"].append(("hwwrite %d %d %d %d %d %d 0 %s" % (big, r.atomic, bw, r.size, old, back,
+                                                                        " ".join(str(x) for _, x in stores)), str(got)))
+            count("writes")
+            if len(rec["samples"]) < 2 and nw > 1:
+                rec["samples"].append({"reg": r.full, "size": r.size, "stores": [(hex(a), hex(x)) for a, x in stores],
+                                       "storage_after": hex(got)})
+        # ---- read ---------------------------------------------------------------------------------------
+        if r.kind == "status":
+            sig = r.obj.status
+            if sig not in tb.nl.comb_targets and sig not in tb.nl.regs:
+                tb.set_reg(sig, rng.getrandbits(r.size))
+        elif r.kind == "csr":
+            if r.obj.w not in tb.nl.comb_targets and r.obj.w not in tb.nl.regs:
+                tb.set_reg(r.obj.w, rng.getrandbits(r.size))
+        cur = tb.get(r.obj.storage if r.kind == "storage" else r.obj.status if r.kind == "status" else r.obj.w)
+        loads = []
+
+        def load(a):
+            val, hits = do_access(a, 0)
+            k = len(loads)
+            expect_hits(hits, "r", r.simple[min(k, nw - 1)], "load from %s word %d @0x%x" % (r.full, k, a))
+            loads.append(val if val is not None else 0)
+            return loads[-1]
+        if has_acc:
+            got = ex.header.read(r.full, load)
+            rec["lean"].append(("accread %d %d %s" % (bw, nw, " ".join(map(str, loads))), str(got)))
+        else:
+            got = 0
+            for a in waddrs:
+                got = (got << bw) | (load(a) & ((1 << bw) - 1))
+        if model_regs:
+            rec["lean"].append(("hwwords %d %d %d %d" % (big, bw, r.size, cur), " ".join(map(str, loads))))
+        if got != cur:
+            alarm("%s_read() = 0x%x, register holds 0x%x" % (r.full, got, cur), R_CSR8, R_AXI_NARROW,
+                  *(ltag + ((R_AXIL_RD,) if cfg["bus"] == "axi" else ())))
+        count("reads")
+        count("nontrivial", 1 if nw > 1 or r.kind == "storage" else 0)
+
+    # ---- CSR memory windows ---------------------------------------------------------------------------------
+    for R in regions:
+        if R.mem is None:
+            continue
+        mem, mmap = R.mem
+        base = ex.json["csr_bases"][R.name]
+        depth = mem.depth
+        for i in sorted({0, depth - 1, rng.randrange(depth), rng.randrange(depth)}):
+            v = rng.getrandbits(32)
+            before = [tb.mem_word(mem, k) for k in range(depth)]
+            val, hits = do_access(base + 4 * i, 1, v)
+            what = "store to memory %s word %d @0x%x" % (R.name, i, base + 4 * i)
+            if hits is None:
+                alarm(what + ": the bus hangs")
+                continue
+            got = set(tb.name_hits(hits))
+            if got != {"mw:" + R.name}:
+                alarm("%s: strobed %s" % (what, sorted(got)), R_CSR8, R_AXI_NARROW)
+            after = [tb.mem_word(mem, k) for k in range(depth)]
+            want = list(before)
+            want[i] = v & ((1 << mem.width) - 1)
+            if after != want:
+                alarm("%s: memory content differs from 'word %d := 0x%x only'" % (what, i, want[i]), R_CSR8, R_AXI_NARROW)
+            val, hits = do_access(base + 4 * i, 0)
+            if hits is None:
+                alarm("load from memory %s: the bus hangs" % R.name)
+            elif val != after[i] or set(tb.name_hits(hits)) != {"mr:" + R.name}:
+                alarm("load from memory %s word %d returns 0x%x (holds 0x%x), strobes %s" % (
+                    R.name, i, val or 0, after[i], tb.name_hits(hits)), R_CSR8, R_AXI_NARROW,
+                    *((R_AXIL_RD,) if cfg["bus"] == "axi" or (set(tb.name_hits(hits)) > {"mr:" + R.name} and val == after[i]) else ()))
+            if model_regs:
+                rec["lean"].append(("memsel %d %d %d %d" % (paging, R.page, depth, (base + 4 * i - csr_base) // 4), str(i)))
+            count("mem_accesses", 2)
+
+    # ---- a few addresses of the CSR window that no export mentions: nothing may answer ------------------------
+    exported = set()
+    for R in regions:
+        for r in R.regs:
+            a = ex.json["csr_registers"][r.full]["addr"]
+            exported |= {a + 4 * k for k in range(len(r.simple))}
+    mem_pages = {R.page for R in regions if R.mem is not None}
+    for _ in range(6):
+        page = rng.randrange(max(1, (4 << aw) // paging))
+        if rng.random() < 0.5 and regions:
+            page = rng.choice(regions).page
+        off = paging * page + 4 * rng.randrange(paging // 4)
+        a = csr_base + off
+        if a in exported or page in mem_pages:
+            continue
+        we = rng.random() < 0.5
+        val, hits = do_access(a, we, rng.getrandbits(32))
+        if hits is None:
+            alarm("access to unexported address 0x%x: the bus hangs" % a)
+        elif tb.name_hits(hits):
+            alarm("unexported address 0x%x strobes %s" % (a, tb.name_hits(hits)), R_CSR8, R_AXI_NARROW,
+                  *(() if we else (R_AXIL_RD,)))
+        count("unexported_probed")
+
+    # ---- RAM regions: base/size and init image ----------------------------------------------------------------
+    for rc in cfg.get("rams", []):
+        ram = b.rams[rc["name"]]
+        region = soc.bus.regions[rc["name"]]
+        base = ex.mem_header[rc["name"].upper()][0]
+        wpb = cfg["bus_dw"] // 32
+        init = rc.get("init")
+        if init is not None:
+            data = bytes(init["bytes"])
+            nwd = (len(data) + 3) // 4
+            for w in range(nwd + 1):
+                val, hits = do_access(base + 4 * w, 0)
+                chunk = data[4 * w:4 * w + 4].ljust(4, b"\0")
+                want = int.from_bytes(chunk, "little" if init["endianness"] == "little" else "big")
+                if hits is None or val != want:
+                    alarm("RAM %s init image: 32-bit load @0x%x = %r, file bytes %s (%s endian) = 0x%x" % (
+                        rc["name"], base + 4 * w, val, chunk.hex(), init["endianness"], want))
+            count("image_words", nwd + 1)
+        if "w" in rc.get("mode", "rwx"):
+            for off in (0, region.size - 4):
+                v = rng.getrandbits(32)
+                val, hits = do_access(base + off, 1, v)
+                idx, lane = off // (4 * wpb), (off // 4) % wpb
+                got = (tb.mem_word(ram.mem, idx) >> (32 * lane)) & M32 if hits is not None else None
+                val2, hits2 = do_access(base + off, 0)
+                if got != v or val2 != v:
+                    alarm("RAM %s @+0x%x: wrote 0x%x, memory holds %r, load returns %r" % (rc["name"], off, v, got, val2))
+            count("ram_accesses", 4)
+    st["cycles"] = tb.cycles
+    return rec
+
+
+# ------------------------------------------------------------------------------------------------------------
+# configuration generator
+
+SIZES = (1, 2, 7, 8, 9, 16, 17, 31, 32, 33, 40, 48, 63, 64, 65, 70)
+
+
+def gen_periph(rng, name, csr_dw, max_regs=6):
+    regs = []
+    for k in range(rng.randint(1, max_regs)):
+        size = rng.choice(SIZES) if rng.random() < 0.6 else rng.randint(1, 70)
+        kind = "storage" if rng.random() < 0.7 else "status"
+        r = {"kind": kind, "name": "r%d" % k, "size": size}
+        if kind == "storage":
+            r["atomic"] = rng.random() < 0.3
+            if rng.random() < 0.3:
+                r["reset"] = rng.getrandbits(size)
+            if rng.random() < 0.12:
+                fs, off = [], 0
+                for fi in range(rng.randint(1, 3)):
+                    off += rng.randint(0, 3)
+                    sz = rng.randint(1, 9)
+                    fs.append({"name": "f%d" % fi, "size": sz, "offset": off})
+                    off += sz
+                r["fields"] = fs
+                r["size"] = off
+                r.pop("reset", None)
+        regs.append(r)
+    p = {"name": name, "regs": regs}
+    if rng.random() < 0.15 and len(regs) >= 2:
+        # one register pinned at a location of its own inside the bank (`n=`), beyond the natural positions
+        regs[-1]["n"] = len(regs) - 1 + rng.randint(0, 2)
+        if regs[-1]["n"] == len(regs):      # `_sort_gathered_items` indexes out of range for n == len(items)
+            regs[-1]["n"] += 1
+    if rng.random() < 0.25:
+        p["mems"] = [{"name": "m0", "width": rng.randint(1, csr_dw), "depth": rng.choice((2, 4, 5, 16, 33, 64))}]
+    return p
+
+
+def gen_cfg(rng, **fixed):
+    cfg = {
+        "bus": rng.choice(("wishbone", "wishbone", "axi-lite", "axi")),
+        "bus_dw": rng.choice((32, 64)),
+        "ic": rng.choice(("shared", "crossbar")),
+        "csr_dw": rng.choice((32, 32, 32, 8)),
+        "paging": rng.choice((0x400, 0x800, 0x1000)),
+        "ordering": rng.choice(("big", "big", "little")),
+        "csr_aw": rng.choice((14, 14, 15, 16)),
+        "with_ctrl": rng.random() < 0.7,
+    }
+    cfg.update(fixed)
+    size = 4 << cfg["csr_aw"]
+    cfg.setdefault("csr_origin", rng.choice((0, 0xf0000000, 0x82000000, size * rng.randint(1, 200))))
+    nlocs = size // cfg["paging"]
+    periphs, used = [], set()
+    for k in range(rng.randint(1, 4)):
+        p = gen_periph(rng, "p%d" % k, cfg["csr_dw"], fixed.get("max_regs", 6))
+        if rng.random() < 0.3:
+            loc = rng.choice((nlocs - 1, rng.randrange(nlocs), rng.randrange(min(nlocs, 8))))
+            if loc not in used:
+                p["loc"] = loc
+                used.add(loc)
+        periphs.append(p)
+    cfg["periphs"] = periphs
+    rams = []
+    org = 0x10000000
+    for k in range(rng.choice((0, 1, 1, 2))):
+        r = {"name": "ram%d" % k, "origin": org, "size": rng.choice((0x40, 0x80, 0x100, 0x400))}
+        if rng.random() < 0.6:
+            n = rng.randint(1, min(70, r["size"] - 1))
+            r["init"] = {"bytes": [rng.getrandbits(8) for _ in range(n)], "endianness": rng.choice(("little", "big"))}
+        rams.append(r)
+        org += 0x10000000
+    cfg["rams"] = rams
+    if rng.random() < 0.25:
+        cfg["second_master"] = True
+    return cfg
+
+
+def soc_task(args):
+    """Pool worker: one end-to-end SoC check."""
+    cfg, seed, max_regs = args
+    try:
+        rec = check_soc(cfg, seed, max_regs)
+    except Exception:
+        rec = {"cfg": cfg, "seed": seed, "lean": [], "alarms": [], "stats": {}, "verdict": "crash",
+               "crash": traceback.format_exc()[-1500:], "samples": []}
+    envshim.quiet_stderr()
+    return rec
+
+
+# ------------------------------------------------------------------------------------------------------------
+# memory images (pure Python code: mode C)
+
+def ref_image_byte(img, q, big, a):
+    """Byte-addressing reference CPU: the byte at address `a` of a memory of 4q-byte words initialised with img."""
+    word = img[a // (4 * q)] if a // (4 * q) < len(img) else 0
+    sub = (word >> (32 * ((a // 4) % q))) & M32
+    lane = (3 - a % 4) if big else a % 4
+    return (sub >> (8 * lane)) & 0xff
+
+
+def mem_image_case(rng, tmpdir):
+    """One random get_mem_data call.  -> (lean line, real answer, oracle alarm | None, second lean line, answer)"""
+    n = rng.choice((1, 2, 3, 4, 5, 7, 8, 9, 15, 16, 17, 31, 32, 33, 64, 70)) if rng.random() < 0.5 else rng.randint(1, 70)
+    q = rng.choice((1, 2, 4))
+    big = rng.random() < 0.5
+    data = bytes(rng.getrandbits(8) if rng.random() < 0.9 else 0 for _ in range(n))
+    fn = os.path.join(tmpdir, "img_%d.bin" % rng.getrandbits(30))
+    with open(fn, "wb") as f:
+        f.write(data)
+    offset = rng.choice((0, 0, 0x100, 0x40000000))
+    k = rng.choice((0, 0, 0, 1, 3))
+    base = offset + k * 4 * q
+    mem_size = rng.choice((None, None, n + k * 4 * q + rng.randint(1, 9), 4096))
+    src = fn if k == 0 and rng.random() < 0.7 else {fn: "%08x" % base}
+    img = get_mem_data(src, data_width=32 * q, endianness="big" if big else "little", mem_size=mem_size, offset=offset)
+    os.unlink(fn)
+    alarm = None
+    total = 4 * q * len(img)
+    for a in range(total):
+        want = data[a - k * 4 * q] if k * 4 * q <= a < k * 4 * q + n else 0
+        if ref_image_byte(img, q, big, a) != want:
+            alarm = "byte address %d of the image reads 0x%02x, file byte is 0x%02x" % (a, ref_image_byte(img, q, big, a), want)
+            break
+    if total < k * 4 * q + n or total >= k * 4 * q + n + 4 * q:
+        alarm = "image has %d bytes for %d data bytes at +%d" % (total, n, k * 4 * q)
+    line = "memimage %d %d %d %s" % (big, q, k * 4 * q, " ".join(map(str, data)))
+    real = " ".join(map(str, img))
+    line2 = "imagebytes %d %d %d %s" % (big, q, total, real)
+    want2 = " ".join(str(data[a - k * 4 * q] if k * 4 * q <= a < k * 4 * q + n else 0) for a in range(total))
+    return {"line": line, "real": real, "alarm": alarm, "line2": line2, "real2": want2,
+            "input": {"kind": "memimage", "bytes": list(data), "q": q, "big": big, "offset": offset, "base": base,
+                      "mem_size": mem_size}}
+
+
+# ------------------------------------------------------------------------------------------------------------
+# exporters alone on hand-made regions (no SoC): wide sweep of the address arithmetic (mode C)
+
+def export_case(rng):
+    from litex.soc.integration.soc import SoCCSRRegion
+    bw = rng.choice((8, 32))
+    paging = rng.choice((0x400, 0x800, 0x1000, 0x2000))
+    csr_base = rng.choice((0, 0xf0000000, 0x82000000, 0x10000 * rng.randint(1, 4000)))
+    pages = sorted(rng.sample(range(32), rng.randint(1, 5)))
+    regions, banks = {}, []
+    for bi, page in enumerate(pages):
+        sizes = [rng.choice(SIZES) if rng.random() < 0.5 else rng.randint(1, 200) for _ in range(rng.randint(0, 7))]
+        objs = []
+        for k, s in enumerate(sizes):
+            objs.append(CSRStorage(s, name="r%d" % k) if rng.random() < 0.6 else CSRStatus(s, name="r%d" % k))
+        regions["b%d" % bi] = SoCCSRRegion(csr_base + paging * page, bw, objs)
+        banks.append(" ".join([str(page)] + [str(s) for s in sizes]))
+    consts = {"CONFIG_CSR_ALIGNMENT": 32, "CONFIG_CSR_DATA_WIDTH": bw}
+    js = json.loads(export.get_csr_json(regions, consts, {}))
+    cs = parse_csv(export.get_csr_csv(regions, consts, {}))
+    hd = CHeader(export.get_csr_header(regions, consts, csr_base=csr_base))
+    jj, hh = [], []
+    alarm = None
+    for bi in range(len(pages)):
+        ej, eh = [], []
+        for c in regions["b%d" % bi].obj:
+            full = "b%d_%s" % (bi, c.name)
+            j = js["csr_registers"][full]
+            if cs["csr_register"][full][:2] != (j["addr"], j["size"]):
+                alarm = "csv/json differ for " + full
+            ej.append("%d:%d" % (j["addr"], j["size"]))
+            eh.append("%d:%d" % (hd.value("CSR_%s_ADDR" % full.upper()), hd.value("CSR_%s_SIZE" % full.upper())))
+            if full in hd.readers and hd.word_addrs(full) != [j["addr"] + 4 * k for k in range(j["size"])]:
+                alarm = "accessor addresses of " + full
+        jj.append(" ".join(ej))
+        hh.append(" ".join(eh))
+    line = "export %d %d 32 %d %d ; %s" % (csr_base, paging, bw, csr_base, " ; ".join(banks))
+    real = "J %s # H %s" % (" | ".join(jj), " | ".join(hh))
+    return {"line": line, "real": real, "alarm": alarm, "input": {"kind": "export", "line": line}}
